@@ -160,6 +160,13 @@ def run(e: Engine, rep: Report):
              'message: holding the client to a sum of the two refuses '
              'messages that are within the advertised limit')
     x19(e, rep)
+    rep.rule('X20', 'a group that is read is matched once: in the patterns '
+             'the SMTP modules take commands, replies and EHLO lines apart '
+             'with, no capture group stands under a repetition (a repeated '
+             'group keeps its last repetition only: of `AUTH CRAM-MD5 PLAIN '
+             'LOGIN` the client would see `LOGIN`, of two MAIL parameters '
+             'the second)')
+    x20(e, rep)
     rep.floor('X1', 4, 'command framing obligations')
     rep.floor('X4', 6, 'HTTP agreement obligations')
 
@@ -1832,3 +1839,74 @@ def x19(e: Engine, rep: Report):
                       'every path')
     if n < 1:
         rep.error('anchor vanished: DataReader(...) in Server')
+
+
+# ---------------------------------------------------------------------- X20
+def x20(e: Engine, rep: Report):
+    from re import _constants as sc
+    mods = ('slimta.smtp.extensions', 'slimta.smtp.server', 'slimta.smtp.io',
+            'slimta.smtp.client', 'slimta.smtp.auth', 'slimta.smtp.reply')
+    n = 0
+
+    def repeated_groups(items, under, out):
+        for op, av in items:
+            if op in (sc.MAX_REPEAT, sc.MIN_REPEAT) or \
+                    str(op) == 'POSSESSIVE_REPEAT':
+                lo, hi, sub = av
+                repeated_groups(sub, under or hi > 1, out)
+            elif op is sc.SUBPATTERN:
+                gno, sub = av[0], av[-1]
+                if gno is not None and under:
+                    out.append(gno)
+                repeated_groups(sub, under, out)
+            elif op is sc.BRANCH:
+                for alt in av[1]:
+                    repeated_groups(alt, under, out)
+            elif op in (sc.ASSERT, sc.ASSERT_NOT):
+                repeated_groups(av[1], under, out)
+            elif str(op) == 'ATOMIC_GROUP':
+                repeated_groups(av, under, out)
+            elif op is sc.GROUPREF_EXISTS:
+                for alt in av[1:]:
+                    if alt is not None:
+                        repeated_groups(alt, under, out)
+    for mn in mods:
+        m = e.p.modules.get(mn)
+        if m is None:
+            continue
+        for st in m.tree.body:
+            if not (isinstance(st, ast.Assign) and
+                    isinstance(st.value, ast.Call) and
+                    ast.unparse(st.value.func) == 're.compile' and
+                    st.value.args and
+                    isinstance(st.value.args[0], ast.Constant)):
+                continue
+            name = ast.unparse(st.targets[0])
+            got = rx.module_pattern(e, mn, name)
+            if got is None:
+                continue
+            try:
+                items = rx.parse(got[0], got[1])
+            except Exception as exc:
+                rep.error('cannot parse %s.%s: %s' % (mn, name, exc))
+                continue
+            n += 1
+            rep.evaluations += 1
+            out = []
+            repeated_groups(items, False, out)
+            rep.check(not out, 'X20', '%s.%s' % (mn, name),
+                      'no capture group of `%s` is repeated' % name,
+                      'group %s of %s stands under a repetition: every '
+                      'repetition overwrites what the one before captured, '
+                      'so .group(%s) is the LAST piece only - of an '
+                      'extension line with several parameters (`AUTH PLAIN '
+                      'LOGIN`) or a command with several arguments all but '
+                      'the last are dropped without an error: the client '
+                      'does not see the extensions the server advertised'
+                      % (out[0] if out else '', name,
+                         out[0] if out else ''),
+                      loc='%s:%d' % (m.relpath, st.lineno),
+                      reason='capture groups are matched at most once')
+    if n < 6:
+        rep.error('anchor vanished: compiled patterns of the SMTP modules '
+                  '(%d < 6)' % n)
